@@ -184,6 +184,9 @@ func law1(av reflect.Value, exp interface{}) (ok bool, why string, cell string) 
 				if f, isF := exp.(float64); isF {
 					return f == float64(x), "integers beyond 2^53 become the nearest Number", t.Kind().String() + ">2^53"
 				}
+				if i, isInt := exp.(int64); isInt && i != x {
+					return float64(i) == float64(x) && float64(int64(float64(i))) == float64(i), "integers beyond 2^53 become the nearest Number", t.Kind().String() + ">2^53"
+				}
 			}
 			i, isInt := exp.(int64)
 			return isInt && i == x, "integer kinds export as int64", t.Kind().String()
@@ -194,6 +197,9 @@ func law1(av reflect.Value, exp interface{}) (ok bool, why string, cell string) 
 			if u > 1<<53 && u <= math.MaxInt64 {
 				if f, isF := exp.(float64); isF {
 					return f == float64(u), "integers beyond 2^53 become the nearest Number", t.Kind().String() + ">2^53"
+				}
+				if i, isInt := exp.(int64); isInt && uint64(i) != u {
+					return i > 0 && float64(i) == float64(u), "integers beyond 2^53 become the nearest Number", t.Kind().String() + ">2^53"
 				}
 			}
 			if u <= math.MaxInt64 {
